@@ -2,6 +2,7 @@
   C09 — Queue: close drains then stops; blocked consumers are released.  Theorems about M4.
 -/
 import MoThreads.Props.C08
+import MoThreads.Proofs.QueueRank
 namespace MoThreads.Queue
 open MoThreads
 
@@ -86,5 +87,25 @@ def demo9 : Option State := do
   run s [0, 0, 0, 0]
 
 example : (demo9.map fun s => (s.pc 0, s.mutex)) = some (.idle .stop, none) := by decide
+
+/-- L2: without new calls and without environment events (signals from the Lock, timers, close), the threads inside
+Queue methods take at most `rank N s` steps, under any scheduler: every operation is a bounded number of own steps plus
+its turns around the capacity / empty loop, and every turn consumes what woke the thread — its `signalled` flag (reset
+when wait() returns), the stall timer of the wait (a fresh one every turn), or it ends the call (the caller's till makes
+the next capacity test raise; closed / till make the pop return).  In particular a blocked thread never spins. -/
+theorem C07_operations_terminate {N : Nat} {s s' : State} {tr : List (Nat × Label)} (h : sys.Reach s) (hb : Below N s)
+    (r : sys.Run s tr s') : tr.length ≤ rank N s := by
+  have := run_length_le_rank hb (reach_wokeOK h) r; omega
+
+theorem run_closed {s s' : State} {tr : List (Nat × Label)} (r : sys.Run s tr s') (hc : s.closed = true) : s'.closed = true := by
+  induction r with
+  | nil => exact hc
+  | cons hs _ ih => exact ih (C09_closed_is_permanent hs hc)
+
+/-- … and once the queue is closed such a run ends with no consumer parked: every pending pop() has returned. -/
+theorem C09_pending_pops_return {N : Nat} {s s' : State} {tr : List (Nat × Label)} (h : sys.Reach s) (hb : Below N s)
+    (hc : s.closed = true) (r : sys.Run s tr s') :
+    tr.length ≤ rank N s ∧ (sys.Quiescent s' → ∀ t tl, s'.pc t ≠ .pParked tl) :=
+  ⟨C07_operations_terminate h hb r, fun hq t tl => C09_blocked_consumers_released (h.run sys r) hq (run_closed r hc) t tl⟩
 
 end MoThreads.Queue
